@@ -247,6 +247,11 @@ def run(ctx):
     # ---------------------------------------------------------------- R4 special members
     n4 = L.check_special_members(ctx, "C06.R4", fb, r"^babylon::(ExclusiveMonotonicBufferResource|SharedMonotonicBufferResource|SwissMemoryResource)$")
     ctx.floor("C06.R4", n4, 4, "user-provided move members of the memory resources")
+    # R4c the per-thread container the shared / swiss resources keep their exclusive resources in: a move that leaves the cache
+    # key (_id) behind makes a thread's cached slot of the moved-from resource name a slot of the move target (seed C06-5;
+    # the clause is C19.R6 / G1, evaluated here on the instantiation this component uses)
+    n4c = L.check_special_members(ctx, "C06.R4c", fb, r"^babylon::EnumerableThreadLocal<babylon::ExclusiveMonotonicBufferResource.*>$")
+    ctx.floor("C06.R4c", n4c, 1, "move members of EnumerableThreadLocal<ExclusiveMonotonicBufferResource>")
 
     # ---------------------------------------------------------------- R4b blocks travel with the allocators that issued them
     def this_field(d):
